@@ -202,7 +202,7 @@ func (bc *boundsCtx) rangeOf0(v ssa.Value, seen map[ssa.Value]bool) ival {
 			return tr
 		}
 		fn := n.Parent()
-		if fn == nil || fn.Object() == nil || fn.Object().Exported() || fnPkgPath(fn) != modPath || bc.c.addressTaken(fn) {
+		if fn == nil || fn.Object() == nil || fn.Object().Exported() || !strings.HasPrefix(fnPkgPath(fn), modPath) || bc.c.addressTaken(fn) {
 			return tr
 		}
 		idx := -1
